@@ -82,6 +82,8 @@ partial def PVal.toJ : PVal → J
   | .str s => .arr [.str "s", J.text s]
   | .list l => .arr [.str "l", .arr (l.map PVal.toJ)]
   | .words ws => .arr [.str "w", .arr (ws.map Word.toJ)]
+  | .record fs => .arr [.str "r", .arr (fs.map fun (k, v) => .arr [J.text k, PVal.toJ v])]
+  | .multi _ l => .arr [.str "m", .arr (l.map PVal.toJ)]
 
 partial def PVal.ofJ : J → Option PVal
   | .null => some .none
@@ -90,6 +92,15 @@ partial def PVal.ofJ : J → Option PVal
   | .arr [.str "s", t] => t.getStr.map PVal.str
   | .arr [.str "l", .arr l] => (l.mapM PVal.ofJ).map PVal.list
   | .arr [.str "w", .arr l] => (l.mapM Word.ofJ).map PVal.words
+  | .arr [.str "r", .arr l] =>
+    let field (e : J) : Option (Str × PVal) :=
+      match e with
+      | J.arr [k, v] => (match k.getStr, PVal.ofJ v with
+        | some k, some v => some (k, v)
+        | _, _ => Option.none)
+      | _ => Option.none
+    (l.mapM field).map PVal.record
+  | .arr [.str "m", .arr l] => (l.mapM PVal.ofJ).map (PVal.multi .none)
   | j => (PNum.ofJ j).map PVal.num
 
 def AttrVal.ofJ : J → Option AttrVal
